@@ -404,6 +404,10 @@ def val_eq(a, b, st=None):
         return z3.BoolVal(True)
     if isinstance(a, Ptr) and isinstance(b, Ptr):
         return val_eq(a.load(st), b.load(st), st)
+    if isinstance(a, Ptr):
+        return val_eq(a.load(st), b, st)
+    if isinstance(b, Ptr):
+        return val_eq(a, b.load(st), st)
     if isinstance(a, Struct) and isinstance(b, Struct):
         keys = set(a.fields) | set(b.fields)
         cs = []
